@@ -899,11 +899,39 @@ func (u *Unit) loopOblName(lb *Block, rest string) string {
 // assignedIn lists variables (declared outside n) assigned inside n, and whether heaps may be written.
 func (u *Unit) assignedIn(n ast.Node) (vars []*types.Var, heapWrite bool) {
 	seen := map[*types.Var]bool{}
+	// Variables declared inside the loop BODY are fresh in every iteration and need no havoc. A
+	// variable declared by the init clause of a three-clause for statement lives across
+	// iterations (it is assigned by the post statement) and must be havoced like any outer
+	// variable; the key/value variables of a range statement are set by the loop head itself.
+	lo, hi := n.Pos(), n.End()
+	var rangeVars []token.Pos
+	switch l := n.(type) {
+	case *ast.ForStmt:
+		lo, hi = l.Body.Pos(), l.Body.End()
+	case *ast.RangeStmt:
+		lo, hi = l.Body.Pos(), l.Body.End()
+		for _, kv := range []ast.Expr{l.Key, l.Value} {
+			if id, ok := kv.(*ast.Ident); ok && l.Tok == token.DEFINE {
+				rangeVars = append(rangeVars, id.Pos())
+			}
+		}
+	}
+	local := func(p token.Pos) bool {
+		if p >= lo && p < hi {
+			return true
+		}
+		for _, rp := range rangeVars {
+			if p == rp {
+				return true
+			}
+		}
+		return false
+	}
 	add := func(x ast.Expr) {
 		switch l := x.(type) {
 		case *ast.Ident:
 			if obj, ok := u.g.P.Info.Uses[l].(*types.Var); ok && obj != nil {
-				if !(obj.Pos() >= n.Pos() && obj.Pos() < n.End()) && !seen[obj] {
+				if !local(obj.Pos()) && !seen[obj] {
 					seen[obj] = true
 					vars = append(vars, obj)
 				}
@@ -930,7 +958,7 @@ func (u *Unit) assignedIn(n ast.Node) (vars []*types.Var, heapWrite bool) {
 			}
 			if id, ok := root.(*ast.Ident); ok {
 				if obj, ok := u.g.P.Info.Uses[id].(*types.Var); ok && obj != nil {
-					if _, isStruct := obj.Type().Underlying().(*types.Struct); isStruct && !seen[obj] && !(obj.Pos() >= n.Pos() && obj.Pos() < n.End()) {
+					if _, isStruct := obj.Type().Underlying().(*types.Struct); isStruct && !seen[obj] && !local(obj.Pos()) {
 						seen[obj] = true
 						vars = append(vars, obj)
 					}
